@@ -711,8 +711,29 @@ def m_sv_insert(ex, c, args, m):
 @M.add(r'^SmallVec::<\[.*; (\d+)\]>::push$')
 def m_sv_push(ex, c, args, m):
     v = dd(args[0])
-    if len(v.items) >= int(m.group(1)): raise Unsupported('model: SmallVec inline capacity exceeded')
+    if len(v.items) >= int(m.group(1)) and not getattr(ex, 'smallvec_unbounded', False): raise Unsupported('model: SmallVec inline capacity exceeded')
     v.items.append(args[1]); return Unit()
+def _sv_cap(v, n_inline):
+    """capacity of a SmallVec that reached its length by successive insertions (smallvec 1.x grows to (len+1).next_power_of_two());
+    a vector made by with_capacity carries its capacity"""
+    k = len(v.items); c0 = getattr(v, 'cap', None)
+    cap = n_inline
+    while cap < k: cap = 1 << (cap.bit_length())      # 10 -> 16 -> 32 -> 64
+    return max(cap, c0 or 0)
+@M.add(r'^SmallVec::<\[.*; (\d+)\]>::(capacity|spilled)$')
+def m_sv_cap(ex, c, args, m):
+    v = dd(args[0]); cap = _sv_cap(v, int(m.group(1)))
+    return U64(cap) if m.group(2) == 'capacity' else B(cap > int(m.group(1)))
+@M.add(r'^SmallVec::<\[.*; (\d+)\]>::with_capacity$')
+def m_sv_with_capacity(ex, c, args, m):
+    v = SVec()
+    try: v.cap = conc(args[0])
+    except AttributeError: pass
+    return v
+@M.add(r'^SmallVec::<\[.*; (\d+)\]>::extend_from_slice$')
+def m_sv_extend_from_slice(ex, c, args, m):
+    if not getattr(ex, 'smallvec_unbounded', False): raise Unsupported('model: SmallVec extend_from_slice outside the unbounded-sequence mode')
+    v = dd(args[0]); v.items.extend(cp(dd(x)) for x in tolist(ex, args[1])); return Unit()
 @M.add(r'^SmallVec::<.*>::remove$')
 def m_sv_remove(ex, c, args, m):
     v = dd(args[0]); i = conc(args[1])
@@ -1252,3 +1273,14 @@ def m_ptrset_eq(ex, c, args, m):
     e = len(a.items) == len(b.items) and all(any(_ptr_same(x, y) for y in b.items) for x in a.items)
     return B(e if m.group(2) == 'eq' else not e)
 M.consts[r'^(std::iter::|core::iter::)?(Copied|Cloned)::<.*Empty::<'] = lambda ex, body: It([])
+
+@M.add(r'^<(Vec<.*>|SmallVec<.*>) as Index<(?:std::ops::)?(RangeFrom|RangeTo|Range|RangeFull)(<usize>)?>>::index$')
+def m_vec_range_index(ex, c, args, m):
+    v = dd(args[0]); n = len(v.items); kind = m.group(2); r = args[1]
+    a, b = 0, n
+    if kind == 'RangeFrom': a = conc(r.f[0])
+    elif kind == 'RangeTo': b = conc(r.f[0])
+    elif kind == 'Range': a, b = conc(r.f[0]), conc(r.f[1])
+    if a > b: raise Panic('slice index starts at %d but ends at %d' % (a, b))
+    if b > n: raise Panic('range end index %d out of range for slice of length %d' % (b, n))
+    return SliceRef(v.items, a, b)
